@@ -36,6 +36,8 @@ pub struct ECall {
     pub bytes: Vec<u8>,
     pub has_pending: bool,
     pub had_unmappables: Option<bool>,
+    /// max_buffer_length_from_<src>_without_replacement(n) / …_if_no_unmappables(n), before the call
+    pub q: Option<(Option<usize>, Option<usize>)>,
     pub guard_broken: bool,
 }
 
@@ -78,8 +80,14 @@ pub fn one_call(e: &mut Encoder, p: &EPlan, src8: &str, src16: &[u16], cap: usiz
         bytes: Vec::new(),
         has_pending: false,
         had_unmappables: None,
+        q: None,
         guard_broken: false,
     };
+    rec.q = Some(if p.utf16 {
+        (e.max_buffer_length_from_utf16_without_replacement(src16.len()), e.max_buffer_length_from_utf16_if_no_unmappables(src16.len()))
+    } else {
+        (e.max_buffer_length_from_utf8_without_replacement(src8.len()), e.max_buffer_length_from_utf8_if_no_unmappables(src8.len()))
+    });
     let r = {
         let dst = &mut buf[off..off + cap];
         let eref = std::panic::AssertUnwindSafe(&mut *e);
@@ -170,6 +178,16 @@ pub fn run_plan(p: &EPlan, fill: u8) -> EOutcome {
         loop {
             let mut cap = p.caps[capi % p.caps.len()];
             capi += 1;
+            if cap == crate::dec::QUERY_CAP {
+                let n = end - off;
+                let q = match (p.utf16, p.repl) {
+                    (true, true) => e.max_buffer_length_from_utf16_if_no_unmappables(n),
+                    (true, false) => e.max_buffer_length_from_utf16_without_replacement(n),
+                    (false, true) => e.max_buffer_length_from_utf8_if_no_unmappables(n),
+                    (false, false) => e.max_buffer_length_from_utf8_without_replacement(n),
+                };
+                cap = q.unwrap_or(1 << 20);
+            }
             if stuck >= 2 && cap < min_cap(p.repl) {
                 cap = min_cap(p.repl);
             }
@@ -223,6 +241,10 @@ pub fn show_calls(calls: &[ECall]) -> String {
             );
             if let Some(hu) = c.had_unmappables {
                 s.push_str(&format!(",hu={}", if hu { 1 } else { 0 }));
+            }
+            if let Some((a, b)) = c.q {
+                let f = |x: Option<usize>| x.map(|v| v.to_string()).unwrap_or_else(|| "-".into());
+                s.push_str(&format!(",q={}/{}", f(a), f(b)));
             }
             s
         })
@@ -328,7 +350,17 @@ pub fn oracles(out: &mut Out, p: &EPlan, o: &EOutcome, props: &[&str]) {
     let lhs = plan_lhs(p);
     out.oracle_evals += 1;
     let minc = min_cap(p.repl);
-    let all_min = p.caps.iter().all(|&c| c >= minc);
+    let all_min = o.calls.iter().all(|c| c.cap >= minc);
+    // C07: a destination as large as the matching query never yields OutputFull (with replacement:
+    // whenever the input has no unmappable character)
+    if want("C07") && p.caps.iter().all(|&c| c == crate::dec::QUERY_CAP) {
+        let any_unmappable = o.calls.iter().any(|c| c.had_unmappables == Some(true));
+        for (i, c) in o.calls.iter().enumerate() {
+            if c.res == ERes::OutputFull && !(p.repl && any_unmappable) {
+                out.fail("C07", &lhs, format!("call#{} OutputFull although cap={} is the value of the matching max_buffer_length query for {} units", i, c.cap, c.n));
+            }
+        }
+    }
     for (i, c) in o.calls.iter().enumerate() {
         if want("C06") {
             if c.guard_broken {
@@ -560,7 +592,7 @@ pub fn gen_caps(rng: &mut Rng, repl: bool, allow_small: bool) -> Vec<usize> {
 
 pub fn emit(out: &mut Out, p: &EPlan, props: &[&str]) {
     let o = run_plan(p, 0);
-    if p.caps.iter().all(|&c| c >= min_cap(p.repl)) {
+    if o.calls.iter().all(|c| c.cap >= min_cap(p.repl)) {
         out.op(op_lhs(p, &o.calls), "ok".into());
     }
     oracles(out, p, &o, props);
@@ -575,6 +607,7 @@ fn props_for(prop: &str) -> Option<Vec<&'static str>> {
         "C08" => Some(vec!["C08"]),
         "C09" => Some(vec!["C09"]),
         "C18" => Some(vec!["C18"]),
+        "C07" => Some(vec!["C07"]),
         _ => None,
     }
 }
@@ -599,7 +632,7 @@ pub fn generate(prop: &str, out: &mut Out, thorough: bool, seed: u64) -> bool {
             };
             let mut p = EPlan { enc: e, utf16, repl, units16, cuts: vec![], caps: vec![] };
             p.cuts = gen_cuts(&mut rng, &p);
-            p.caps = gen_caps(&mut rng, repl, prop == "C06");
+            p.caps = if prop == "C07" && rng.chance(3, 4) { vec![crate::dec::QUERY_CAP] } else { gen_caps(&mut rng, repl, prop == "C06") };
             emit(out, &p, &props);
         }
     }
@@ -665,7 +698,7 @@ pub fn plan_from_enc(toks: &[&str]) -> Option<EPlan> {
 }
 
 pub fn replay(toks: &[&str], out: &mut Out) -> bool {
-    let all = ["C03", "C04", "C06", "C08", "C09", "C12", "C18"];
+    let all = ["C03", "C04", "C06", "C07", "C08", "C09", "C12", "C18"];
     match toks[0] {
         "enc" => {
             if let Some(p) = plan_from_enc(toks) {
